@@ -913,6 +913,16 @@ func decodeErrorsKeepTheConnection(c *kit.Ctx) {
 			c.OK(recv, "post-claim-error-class", posOf(mi), "an error about the claimed call only ("+mi.X.Type().String()+")")
 			return
 		}
+		// the server's own exception, translated by exceptionToError and found to be of the connection class
+		// (serr, ok := exceptionToError(...).(ServerError)): the class is the exception table's, not made up here
+		if ex, isEx := kit.Root(mi.X).(*ssa.Extract); isEx && ex.Index == 0 {
+			if ta, isTA := ex.Tuple.(*ssa.TypeAssert); isTA {
+				if call, isCall := kit.Root(ta.X).(*ssa.Call); isCall && kit.CalleeName(call) == kit.M("region", "", "exceptionToError") {
+					c.OK(recv, "post-claim-error-class", posOf(mi), "the server's exception as classified by exceptionToError")
+					return
+				}
+			}
+		}
 		// a connection-level error after the claim is only the failure to clear the read deadline
 		inner := structFieldStore(mi.X)
 		fromDown := false
@@ -1068,19 +1078,39 @@ func multiDecodesEveryResult(c *kit.Ctx) {
 		c.Unk(nil, "multi-decodes-every-result", token.NoPos, "multi.DeserializeCellBlocks not found")
 		return
 	}
-	gets := kit.Calls(md, kit.M("region", "*multi", "get"))
+	var gets []ssa.Instruction
+	for _, g := range kit.Calls(md, kit.M("region", "*multi", "get")) {
+		gets = append(gets, g.(ssa.Instruction))
+	}
+	if len(gets) == 0 {
+		// the call fetched by indexing m.calls directly
+		callsF := p.Field("region", "multi", "calls")
+		kit.Instrs(md, func(in ssa.Instruction) {
+			if l, ok := in.(*ssa.UnOp); ok && l.Op == token.MUL {
+				if ia, ok := l.X.(*ssa.IndexAddr); ok && callsF != nil && isLoadOfField(ia.X, callsF) {
+					// only the fetch that is decoded (not the validation reads): its value is type-asserted
+					for _, r := range kit.Referrers(l) {
+						if _, isTA := r.(*ssa.TypeAssert); isTA {
+							gets = append(gets, l)
+						}
+					}
+				}
+			}
+		})
+	}
 	if len(gets) == 0 {
 		c.Unk(md, "multi-decodes-every-result", md.Pos(), "multi.DeserializeCellBlocks no longer fetches the call of a result with m.get")
 	}
 	for _, g := range gets {
-		e := kit.PathFrom(g.(ssa.Instruction), kit.PathQuery{
+		g := g
+		e := kit.PathFrom(g, kit.PathQuery{
 			IgnorePanics: true,
 			Stop: func(x ssa.Instruction) bool {
 				cc, ok := x.(*ssa.Call)
 				return ok && cc.Call.IsInvoke() && cc.Call.Method.Name() == "DeserializeCellBlocks"
 			},
 			Target: func(x ssa.Instruction) bool {
-				if x == g.(ssa.Instruction) {
+				if x == g {
 					return true
 				}
 				if r, ok := x.(*ssa.Return); ok {
@@ -1329,6 +1359,34 @@ func scanResultsFullyPopulated(c *kit.Ctx) {
 		n2 := eng.LenOf(ranged)
 		ok1, _ := eng.Prove(n1.Sub(n2), mk.Block(), kit.InstrIndex(mk))
 		ok2, _ := eng.Prove(n2.Sub(n1), mk.Block(), kit.InstrIndex(mk))
+		// ... and every iteration fills its slot with a result (not nil): no way round the loop avoids the store
+		var fills []*ssa.Store
+		kit.Instrs(dcb, func(x ssa.Instruction) {
+			st, ok := x.(*ssa.Store)
+			if !ok {
+				return
+			}
+			ia, ok := st.Addr.(*ssa.IndexAddr)
+			if !ok || !strings.Contains(ia.X.Type().String(), "pb.Result") {
+				return
+			}
+			if _, isR := rangeOfIndex(ia.Index); isR && kit.NonNil(st.Val) {
+				fills = append(fills, st)
+			}
+		})
+		if len(fills) == 0 {
+			c.Unk(dcb, "every-iteration-fills-its-slot", mk.Pos(), "no store of a fresh result into the slot of the current iteration found")
+		} else {
+			cyc := kit.FindCycle(dcb, func(b *ssa.BasicBlock) bool {
+				for _, st := range fills {
+					if st.Block() == b {
+						return true
+					}
+				}
+				return false
+			}, nil)
+			c.Check(cyc == nil, dcb, "every-iteration-fills-its-slot", fills[0].Pos(), "no way round the filling loop skips the store into Results[i]", "an iteration of the filling loop can go on to the next result without storing one (e.g. for a result without cells): the slot stays nil - Next returns (nil, nil) or the scanner dereferences the nil fragment while it assembles a row")
+		}
 		c.Check(ok1 && ok2, dcb, "results-fully-populated", mk.Pos(), "the results slice has exactly one slot per iteration of the loop that fills it", "the results slice can be longer than the number of results the loop fills in (it is sized by one per-result array and filled by another, and the guard only bounds one by the other): the tail stays nil, Next returns (nil, nil) and the meta lookup dereferences a nil result")
 	})
 }
